@@ -34,7 +34,7 @@ ASSUMPTIONS = [
     "counted as 'set'; field values are compared up to runs of line breaks/spaces and surrounding whitespace",
 ]
 MIN = {"quick": {"evaluations": 32000, "nontrivial": 12000, "outcomes": 6},
-       "thorough": {"evaluations": 200000, "nontrivial": 100000, "outcomes": 7}}
+       "thorough": {"evaluations": 430000, "nontrivial": 210000, "outcomes": 6}}
 
 NO_BODY = (204, 304)
 SERVER_OWN = {b"transfer-encoding", b"connection", b"content-length", b"date", b"server", b"keep-alive"}
@@ -52,7 +52,7 @@ WRITES = [(b"a",), (), (b"",), (b"a", b"bc"), (b"", b"a"), (b"a", b""), (b"0\r\n
 
 VALID_NAMES = ["X-A", "x-a", "X-B", "X|~!#$%&'*+.^_`0", "etag", "www-authenticate"]
 INVALID_NAMES = ["", "X A", " X", "X ", "X:A", "X\r\nEvil: y", "X\nEvil", "X\r", "X\x00", "X\xe9", "X\t",
-                 "(X)", "X/A", "X=A", "X\x7f", "X€"]
+                 "(X)", "X/A", "X=A", "X\x7f", "X€", "X\n", "\nX"]
 CURATED_VALUES = ["v", "", "a\r\nEvil: y", "a\nEvil: y", "a\rEvil: y", "a\r\n b", "a\r\n\tb",
                   "a\r\n\r\nHTTP/1.1 200 OK\r\n\r\n", " a ", "a\tb", "caf\xe9", "a\x01b", "a\x00b",
                   "a b", "a\x85b", "\r\n", "a\r\n", "\r\na", "a\n\rb", "a;b=c"]
@@ -211,7 +211,12 @@ def pair_prefixes():
             if p or c:
                 out.append([p, c])
             else:
-                out.extend([0, 0, r, w] for r in range(len(REASONS)) for w in range(len(WRITES)))
+                for r in range(len(REASONS)):
+                    for w in range(len(WRITES)):
+                        if r or w:
+                            out.append([0, 0, r, w])
+                        else:
+                            out.extend([0, 0, 0, 0, cl, h] for cl in range(2) for h in range(len(HDR_MENU)))
     return out
 
 
